@@ -117,6 +117,13 @@ def alternative_serialisers(obj, s, clsname):
         if shape != base:
             raise Violation('alternative-serialisation-differs', '%s: %s describes another element than to_string(): %s' % (clsname, name, _first_diff(_listify(base), _listify(shape))),
                             detail={'route': name})
+        # producing text does not change the instance: its ordinary serialisation is what it was before
+        try:
+            again = obj.to_string()
+        except Exception as e:
+            raise Violation('serialiser-changes-instance', '%s: after %s, to_string() raises %r' % (clsname, name, e), detail={'route': name})
+        if again != s:
+            raise Violation('serialiser-changes-instance', '%s: after %s the instance serialises differently: %r vs %r' % (clsname, name, again[:200], s[:200]), detail={'route': name})
 
 
 def _listify(t):
@@ -327,6 +334,11 @@ def run_every(case):
         spec = {'cls': case['cls'], 'attrs': dict((m, '') for xn, m, t, r in G.attrs_of(cls)), 'children': {}, 'text': '' if getattr(cls, 'c_value_type', None) or not G.children_of(cls) else None}
         roundtrip(spec, inject=None)
         return 'empty-strings', True
+    if case['variant'] == -3:   # text made of white space only (ASCII and other blanks): text all the same
+        cls = G.classes()[case['cls']]
+        for blank in BLANKS:
+            roundtrip({'cls': case['cls'], 'attrs': {}, 'children': {}, 'text': blank}, inject=None)
+        return 'blank-text', True
     if case['variant'] < 0:     # bare instance: nothing set at all
         roundtrip({'cls': case['cls'], 'attrs': {}, 'children': {}, 'text': None}, inject=0)
         return 'bare', True
@@ -337,11 +349,18 @@ def run_every(case):
     return 'full|d%d' % case['depth'], True
 
 
+BLANKS = [u' ', u'\t', u'  \n ', u'\u00a0', u'\u3000', u'\u2003 ']
+
+
 def every_cases():
     out = []
     for cn in sorted(G.classes()):
         out.append({'cls': cn, 'depth': 0, 'variant': -1, 'inject': 0})
         out.append({'cls': cn, 'depth': 0, 'variant': -2, 'inject': 0})
+        cls = G.classes()[cn]
+        if not G.children_of(cls) and not getattr(cls, 'c_value_type', None) or cn.endswith(':AttributeValue'):
+            # leaf classes whose text is not of a checked type: any text is content
+            out.append({'cls': cn, 'depth': 0, 'variant': -3, 'inject': 0})
         for depth in (1, 2):
             for variant in (0, 1):
                 out.append({'cls': cn, 'depth': depth, 'variant': variant, 'inject': variant})
